@@ -16,6 +16,7 @@ import YorkieModel.Driver.CodecEngine
 import YorkieModel.Driver.PresenceEngine
 import YorkieModel.Driver.ProtoEngine
 import YorkieModel.Driver.FDocEngine
+import YorkieModel.Driver.JsonEngine
 open Yorkie.Driver
 
 def engines : List (String × Engine) := [
@@ -38,7 +39,7 @@ def engines : List (String × Engine) := [
   ("pbfuzz", CodecEngine.pbfuzzEngine),
   ("presence", PresenceEngine.engine),
   ("proto", ProtoEngine.engine),
-  ("fdoc", FDocEngine.engine)
+  ("fdoc", FDocEngine.engine), ("json", JsonEngine.engine)
 ]
 
 partial def loop (e : Engine) (h : IO.FS.Stream) (out : IO.FS.Stream) (st : e.State) : IO Unit := do
